@@ -308,7 +308,7 @@ def rule_w3(ctx: Ctx) -> None:
         """both are calls of one path helper with the same positional arguments; keyword flags that differ do not enter
         the helper's returned value"""
         try:
-            cx, cy = ast.parse(x, mode="eval").body, ast.parse(y, mode="eval").body
+            cx, cy = ast.parse(x.replace("$perm", "PERM_"), mode="eval").body, ast.parse(y.replace("$perm", "PERM_"), mode="eval").body
         except SyntaxError:
             return False
         while isinstance(cx, ast.Call) and isinstance(cy, ast.Call) and unparse(cx.func) == unparse(cy.func) == "str" and len(cx.args) == len(cy.args) == 1:
